@@ -273,6 +273,26 @@ def _grid_case(arg):
                             _gt(np.max(np.abs(4 * np.pi * av - ang)), 1e-12 * (np.max(np.abs(ang)) + np.max(np.abs(gfun(rp))) + 1e-300)):
                         res.violation(f"{tag}:spherical-average", f"g Y_({l},{m}): spherical average differs from g_00/sqrt(4pi) or from "
                                       f"(1/4pi) x the angular integrals", c2)
+    # objects handed out earlier keep their meaning when the same grid is used for another function afterwards (added after
+    # seeded change C09-I: the interpolant read the grid's "latest splines" at evaluation time)
+    res.count(3)
+    with warnings.catch_warnings():
+        warnings.simplefilter("ignore")
+        with np.errstate(all="ignore"):
+            f1 = np.exp(-0.7 * r) * (1.0 + Y[min(2, len(lm) - 1)])
+            f2 = np.cos(r) * (0.5 - Y[min(1, len(lm) - 1)]) + 3.0
+            i1, a1, s1 = g.interpolate(f1.copy()), g.spherical_average(f1.copy()), g.radial_component_splines(f1.copy())
+            before = (np.asarray(i1(q), dtype=float), np.asarray(i1(q, deriv=1), dtype=float), np.asarray(a1(rp), dtype=float),
+                      np.asarray(s1[0](rp), dtype=float))
+            g.interpolate(f2.copy())
+            g.spherical_average(f2.copy())
+            g.radial_component_splines(f2.copy())
+            g.integrate_angular_coordinates(f2.copy())
+            after = (np.asarray(i1(q), dtype=float), np.asarray(i1(q, deriv=1), dtype=float), np.asarray(a1(rp), dtype=float),
+                     np.asarray(s1[0](rp), dtype=float))
+    if not all(x.shape == y.shape and np.array_equal(x, y, equal_nan=True) for x, y in zip(before, after)):
+        res.violation("history:earlier-result-changed-by-later-call", "an interpolant / spherical average / spline list obtained for one "
+                      "function gives different values after the same grid was used for another function", case)
     res.sample(dict(case, l_cap=lcap, basis_rows=nrows_basis))
     return res.as_dict()
 
@@ -316,6 +336,14 @@ def molecular(ctx):
                         ctx.violation("molecular:not-sum-of-atomic-interpolants", f"MolGrid.interpolate({kw}) of a {fname} function on {natoms} atoms "
                                       f"differs from the sum of atomic interpolants of w_A f", {"route": "molecular", "kwargs": repr(kw)})
         f = pos
+        # earlier molecular interpolant after a later one on the same (stored) grids
+        ctx.count(section="molecular")
+        m1 = mg.interpolate(pos.copy())
+        b1 = np.asarray(m1(q), dtype=float)
+        mg.interpolate((-2.0 * pos + 1.0).copy())
+        if not np.array_equal(np.asarray(m1(q), dtype=float), b1):
+            ctx.violation("molecular:earlier-interpolant-changed-by-later-call", "a molecular interpolant gives different values after the grid "
+                          "interpolated another function", {"route": "molecular"})
         ctx.count(section="molecular")
         try:
             MolGrid(nums, ats, BeckeWeights(), store=False).interpolate(f)
